@@ -131,6 +131,9 @@ __CPROVER_loop_invariant(base >= (split->st.st_size & ~block_mask))
 __CPROVER_decreases(delta)
 """)],
            note='UNBOUNDED: the bit-by-bit grow loop carries an inductive loop contract (invariant + decreases, injected in a scratch copy); parity_handle_grow / parity_handle_shrink / hbit_u64 replaced by their contracts'),
+        Ob('parity.chsize.contract', P, 'h_chsize', route='dfcc', replace=['parity_handle_chsize'], unwind=10, small_path=True, solver=KISSAT, timeout=2400, mem=8, cost=30, replay=False,
+           functions=pf('parity_chsize', 'parity_split_is_fixed'),
+           note='up to SPLIT_MAX=8 splits, every size vector / request / OS outcome; parity_handle_chsize replaced by its contract (goto-instrument --dfcc), which also records what each split was asked to become'),
     ] + [
         Ob('parity.%s.address.bs2^%d' % (rw, sh), P, 'h_parity_' + rw, unwind=10, defs={'BLOCK_SHIFT': sh}, small_path=True,
            functions=pf('parity_' + rw, 'parity_split_find'), timeout=900, mem=6, cost=8, tier='quick' if sh in (10, 18, 24) else 'thorough',
@@ -153,7 +156,7 @@ def rec_obs(tier, seed):
         for x in range(nd):
             obs.append(Ob('rec.rec1of1.nd%d.id%d' % (nd, x), R, 'h_recfn', REC_SRCS,
                           defs={'ND': nd, 'NPT': 2, 'NR': 1, 'SIZE': 64, 'REC_FN': 'raid_rec1_int8', 'ID_LIST': x, 'IP_LIST': 0, 'MODE': 'RAID_MODE_CAUCHY'},
-                          unwind=70, solver=KISSAT, incl_first=['include/noasm'], timeout=900, mem=8, cost=10, tier='quick' if nd <= 3 else 'thorough',
+                          unwind=132, solver=KISSAT, incl_first=['include/noasm'], timeout=900, mem=8, cost=10, tier='quick' if nd <= 3 else 'thorough',
                           functions=['raid_rec1_int8 (raid/int.c)', 'raid_rec1of1 (raid/raid.c)', 'raid_gen (raid/raid.c)', 'raid_gen1_int64 (raid/int.c)'],
                           note='nd=%d, data block %d lost, recovered from parity 0; size 64 (smallest the API admits); every content symbolic' % (nd, x)))
     # delta parity: the first half of every decoder (pointer-vector shuffling + generator with aliased outputs)
@@ -162,7 +165,7 @@ def rec_obs(tier, seed):
         obs.append(Ob('rec.delta_gen.nd%d.p%d%s.id%s.ip%s' % (nd, npt, mode.lower(), ''.join(map(str, ids)), ''.join(map(str, ips))), R, 'h_delta_gen', REC_SRCS,
                       defs={'ND': nd, 'NPT': npt, 'NR': len(ids), 'SIZE': 64, 'ID_LIST': ','.join(map(str, ids)), 'IP_LIST': ','.join(map(str, ips)),
                             'MODE': 'RAID_MODE_CAUCHY' if mode == 'C' else 'RAID_MODE_VANDERMONDE'},
-                      unwind=70, solver=KISSAT, incl_first=['include/noasm'], timeout=3000, mem=10, cost=60, tier='quick' if quick else 'thorough', functions=recf,
+                      unwind=132, solver=KISSAT, incl_first=['include/noasm'], timeout=3000, mem=10, cost=60, tier='quick' if quick else 'thorough', functions=recf,
                       note='nd=%d, %d parity blocks, lost %s, parities used %s; unused parities alias the last lost block and must come back untouched' % (nd, npt, ids, ips)))
     for n in (1, 2):
         obs.append(Ob('rec.invert.n%d' % n, R, 'h_invert', ['raid/raid.c', 'raid/tables.c'], defs={'INV_N': n}, unwind=8, solver=KISSAT, timeout=6000, mem=8, cost=40, tier='quick' if n == 1 else 'thorough',
@@ -232,6 +235,30 @@ def crc_obs(tier):
     return obs
 
 
+def check_obs(tier):
+    K = 'harness/h_check.c'
+    cf = lambda *f: [x + ' (cmdline/check.c)' for x in f]
+    return [
+        Ob('check.blockcmp', K, 'h_blockcmp', unwind=18, small_path=True, timeout=900, mem=6, cost=5, functions=cf('blockcmp'), replay=False,
+           note='every digest / recorded hash / hash size 2..16 / block content / valid length (block size 8 in the driver); memhash by contract (arbitrary digest)'),
+        Ob('check.is_hash_matching', K, 'h_is_hash_matching', route='dfcc', replace=['blockcmp', 'file_block_size', 'raid_gen'], unwind=12, small_path=True, timeout=900, mem=6, cost=8, object_bits=12,
+           functions=cf('is_hash_matching'), replay=False, kind='bounded', bound='at most 3 failed blocks per stripe in the driver',
+           note='every block state / out-of-date mark / comparison outcome; callees replaced by contracts (goto-instrument --dfcc)'),
+        Ob('check.repair_step', K, 'h_repair_step', route='dfcc', replace=['raid_data', 'raid_gen', 'is_hash_matching', 'is_parity_matching'], unwind=26, small_path=True, object_bits=12,
+           timeout=1800, mem=8, cost=30, functions=cf('repair_step') + ['combination_first / combination_next (raid/combo.h)'], replay=False, kind='bounded',
+           bound='at most 3 failed blocks, parity levels 1..4 (thorough: 6), every readability pattern of the parities and every sequence of validation verdicts',
+           defs={'REPAIR_LEVEL_MAX': 6 if tier == 'thorough' else 4},
+           note='raid_data / raid_gen / is_hash_matching / is_parity_matching replaced by recording contracts (goto-instrument --dfcc)'),
+    ]
+
+
+def elem_obs(tier):
+    return [Ob('elem.file_block_size.bs2^%d' % sh, 'harness/h_elem.c', 'h_file_block_size', defs={'BLOCK_SHIFT': sh}, unwind=4, small_path=True, timeout=600, mem=6, cost=4,
+               tier='quick' if sh in (10, 18, 24) else 'thorough', functions=['file_block_size (cmdline/elem.c)', 'file_block_is_last (cmdline/elem.c)'],
+               note='block size 2^%d concrete (a symbolic modulus is out of reach), file size up to 2^50 and position symbolic' % sh)
+            for sh in range(10, 25)]
+
+
 # ---------------------------------------------------------------- filters (C18)
 def c18(tier, seed):
     F = 'harness/h_filter.c'
@@ -261,12 +288,44 @@ def c20(tier, seed):
     ]
 
 
+STATE_Q_REGION = dict(region='state_q', file='cmdline/state.c', begin="} else if (c == 'Q') {", end="} else if (c == 'N') {", include_begin=True, max_lines=150,
+                      proto='static void region_state_q(struct snapraid_state *state, STREAM *f, const char *path)',
+                      prologue="\tint ret;\n\tint c = 'Q';\n\tif (c == 0) {", epilogue='\t}\n\t(void)ret;')
+
+
+STATE_Q_AUTOCONF = dict(region='state_q_autoconf', file='cmdline/state.c', scope="} else if (c == 'Q') {", begin='if (v_level >= LEV_MAX) {', include_begin=True,
+                        end='/* if we use this parity entry */', end_first_after=True, max_lines=40, expect_loops=0,
+                        proto='static void region_state_q_autoconf(struct snapraid_state *state, uint32_t v_level, uint32_t v_split_mac, const char *path, STREAM *f)')
+
+
+def state_obs(tier):
+    return [Ob('state.record_Q.autoconf', 'harness/h_stateq.c', 'h_region_q_autoconf', ['cmdline/util.c'], inject=[STATE_Q_AUTOCONF], unwind=12, small_path=True, timeout=900, mem=8, cost=5,
+               functions=["state_read_content: region record 'Q', auto-configuration step (cmdline/state.c, extracted mechanically)"],
+               note="region = the validity checks on the announced level / split count plus the auto-configuration step; state, v_level, v_split_mac become parameters; every 32-bit value of both")]
+
+
+def c05(tier, seed):
+    return check_obs(tier)
+
+
 def c09(tier, seed):
-    return stream_obs(['h_sgetb32', 'h_sgetb64', 'h_sgetble32', 'h_sgetbs']) + crc_obs(tier)
+    return stream_obs(['h_sgetb32', 'h_sgetb64', 'h_sgetble32', 'h_sgetbs']) + crc_obs(tier) + state_obs(tier)
+
+
+NSEC_ENC = dict(region='nsec_enc', file='cmdline/state.c', begin='/* encode STAT_NSEC_INVALID as 0 */', end='sputb64(inode, f);', end_first_after=True, max_lines=8, expect_loops=0,
+                proto='static void region_nsec_enc(int32_t mtime_nsec, STREAM *f)')
+NSEC_DEC = dict(region='nsec_dec', file='cmdline/state.c', begin='/* STAT_NSEC_INVALID is encoded as 0 */', end='ret = sgetb64(f, &v_inode);', end_first_after=True, max_lines=8, expect_loops=0,
+                proto='static void region_nsec_dec(uint32_t *v_mtime_nsec_p)', prologue='\tuint32_t v_mtime_nsec = *v_mtime_nsec_p;', epilogue='\t*v_mtime_nsec_p = v_mtime_nsec;')
+
+
+def staterec_obs(tier):
+    return [Ob('state.f_record.mtime_nsec.roundtrip', 'harness/h_staterec.c', 'h_nsec_roundtrip', inject=[NSEC_ENC, NSEC_DEC], unwind=4, small_path=True, timeout=600, mem=6, cost=3,
+               functions=["state_write_content: region 'f' record nanosecond encoding (cmdline/state.c, extracted)", "state_read_content: region 'f' record nanosecond decoding (cmdline/state.c, extracted)"],
+               note='every nanosecond value 0..999999999 and STAT_NSEC_INVALID; sputb32 replaced by a recording stub (its round trip with sgetb32 is unit stream.rt32)')]
 
 
 def c10(tier, seed):
-    return stream_obs(['h_rt32', 'h_rt64', 'h_rtle32', 'h_rtbs'])
+    return stream_obs(['h_rt32', 'h_rt64', 'h_rtle32', 'h_rtbs']) + staterec_obs(tier)
 
 
 PROPS = {
@@ -275,6 +334,7 @@ PROPS = {
     'C15': dict(level='other', obligations=c15, explanation='', trusted_base=[], assumptions=[], not_covered=[]),
     'C18': dict(level='other', obligations=c18, explanation='', trusted_base=[], assumptions=[], not_covered=[]),
     'C20': dict(level='other', obligations=c20, explanation='', trusted_base=[], assumptions=[], not_covered=[]),
+    'C05': dict(level='other', obligations=c05, explanation='', trusted_base=[], assumptions=[], not_covered=[]),
     'C09': dict(level='other', obligations=c09, explanation='', trusted_base=[], assumptions=[], not_covered=[]),
     'C10': dict(level='other', obligations=c10, explanation='', trusted_base=[], assumptions=[], not_covered=[]),
     'C02': dict(level='proof', obligations=c02,
